@@ -48,12 +48,15 @@ CLAIMED["C02"] = dict(
          "taken the leaves of the returned tree are exactly the reader's items in order (no statement or unit "
          "dropped, duplicated, reordered); the fall-back path is refuted by a computed witness (finding F5); "
          "(b) splitquote and splitparen are lossless for every line and quote state, lower=True only lower-cases "
-         "text outside literals. Tie: regenerated tables, engine correspondence, SplitLine model vs the Python on "
-         "1.5k/40k generated lines. Failing-input search: independent lexer/normaliser comparing "
+         "text outside literals; (c) the key bookkeeping of string_replace_map (identical groups share a key "
+         "through a reverse map) restores every line exactly, for the look-up variant probed from the live code; "
+         "the other variant (the code before fix c40fb6f) is refuted. Tie: regenerated tables, engine "
+         "correspondence, SplitLine model vs the Python on 1.5k/40k generated lines, key sequences of the model vs "
+         "string_replace_map on generated lines with repeated and doubly parenthesised groups. Failing-input search: independent lexer/normaliser comparing "
          "tokens(str(parse(layout(P)))) with tokens(P) over programs x layouts x comment settings.",
-    note=ENGINE_NOTE + " Partial: statement text -> str(statement) for non-expression statements and "
-         "string_replace_map/StringReplaceDict are not modelled; they are covered by the end-to-end token "
-         "comparison only. Exponent-letter case of real literals is treated as keyword case.",
+    note=ENGINE_NOTE + " Partial: statement text -> str(statement) for non-expression statements is not "
+         "modelled (end-to-end token comparison only); string_replace_map is modelled at segment level (keys "
+         "are numbers: the textual form of the keys, hence the prefix hazard F2PY_EXPR_TUPLE_1 / _10, is not). Exponent-letter case of real literals is treated as keyword case.",
     technique="Rocq proof (engine K2 yield; splitquote/splitparen losslessness by induction) + regenerated tables + correspondence + independent-lexer token search")
 CLAIMED["C11"] = dict(
     design_ref="DESIGN.md 4 (C11), 3.4",
